@@ -50,13 +50,13 @@ Qed.
 Lemma back_subst_sound (au : matrix) (mm n : nat) (y x : list T) (lf : nat) :
   cols au = mm -> 1 <= mm -> length y = n ->
   for_rev 0 n (back_step mm au) (y, 1) = Ok (x, lf) ->
-  length x = n /\ forall i, i < n -> rowval au mm i i x = nth i y zero.
+  length x = n /\ forall i, i < n -> rowval au mm i i x = nth i y zero /\ mat_at au mm i 0 <> zero.
 Proof.
   intros Hc Hmm Hy E. unfold for_rev in E. rewrite Nat.sub_0_r in E.
   pose (I := fun t (s : list T * nat) =>
     length (fst s) = n /\ snd s = Nat.min (n - t + 1) mm /\
     (forall j, j < t -> nth j (fst s) zero = nth j y zero) /\
-    (forall r, t <= r < n -> rowval au mm r r (fst s) = nth r y zero)).
+    (forall r, t <= r < n -> rowval au mm r r (fst s) = nth r y zero /\ mat_at au mm r 0 <> zero)).
   assert (HI : I 0 (x, lf)).
   { apply (for_rev_from_inv_partial I n 0 (back_step mm au) (y, 1)); auto.
     - unfold I; cbn. repeat split; auto; try lia.
@@ -86,7 +86,7 @@ Proof.
       { destruct (Nat.ltb_spec l mm); lia. }
       split.
       { intros j Hj. rewrite nth_upd_list by auto. destruct (Nat.eqb_spec j k); [lia|]. apply Hlow; lia. }
-      intros r Hr. destruct (Nat.eq_dec r k) as [->|Hne].
+      intros r Hr. destruct (Nat.eq_dec r k) as [->|Hne]; [split; [|exact Hd0]|split; [|apply Hrows; lia]].
       + (* the row just solved *)
         unfold rowval.
         assert (Hsplit : mm = l + (mm - l)) by lia. rewrite Hsplit at 1.
@@ -101,7 +101,7 @@ Proof.
             destruct (Nat.eqb_spec (k + (1 + u)) k); [lia|reflexivity]. }
         field. exact Hd0.
       + (* rows below: their entries do not involve x[k] *)
-        rewrite <- (Hrows r) by lia. unfold rowval. apply sum_n_ext. intros s Hs.
+        rewrite <- (proj1 (Hrows r ltac:(lia))). unfold rowval. apply sum_n_ext. intros s Hs.
         rewrite nth_upd_list by auto. destruct (Nat.eqb_spec (r + s) k); [lia|reflexivity]. }
   destruct HI as (Hlen & _ & _ & Hrows). cbn [fst] in *. split; auto. intros i Hi. apply Hrows. lia.
 Qed.
@@ -654,6 +654,168 @@ Proof.
     replace (i <? k + m1) with false by (symmetry; apply Nat.ltb_ge; lia).
     replace (i <? k + 1) with false in Hnew by (symmetry; apply Nat.ltb_ge; lia).
     replace (i <? k + 1 + m1) with false in Hnew by (symmetry; apply Nat.ltb_ge; lia). exact Hnew.
+Qed.
+
+(* ---- all stages: a solution of the final triangular system solves the system the main loop started from ---- *)
+Lemma lnext_min n m1 k : m1 <= n -> lnext n (Nat.min (k + m1) n) = Nat.min (k + 1 + m1) n.
+Proof. intros H. unfold lnext. destruct (Nat.ltb_spec (Nat.min (k + m1) n) n); lia. Qed.
+
+Lemma dec_fwd_back n mm m1 (x : list T) :
+  1 <= mm -> m1 <= n ->
+  forall rem k (au al : matrix) (index : list nat) (d : T) (auN alN : matrix) (indexN : list nat) (dN : T) lN
+         (y yN : list T) lN',
+  k + rem = n -> cols au = mm -> cols al = m1 ->
+  for_from rem k (dec_step false n mm) (au, al, index, d, Nat.min (k + m1) n) = Ok (auN, alN, indexN, dN, lN) ->
+  (forall i, k <= i < n -> mat_at auN mm i 0 <> zero) ->
+  for_from rem k (fwd_step n alN indexN) (y, Nat.min (k + m1) n) = Ok (yN, lN') ->
+  (forall i, i < n -> rowval auN mm i i x = nth i yN zero) ->
+  forall i, i < n -> rowval au mm i (c_of m1 k i) x = nth i y zero.
+Proof.
+  intros Hmm Hm1. induction rem as [|rem IH];
+    intros k au al index d auN alN indexN dN lN y yN lN' Hk Hc Hcl Hdec Hpiv Hfwd Hfin.
+  - cbn in Hdec, Hfwd. injection Hdec as <- <- <- <- <-. injection Hfwd as <- <-.
+    intros i Hi. unfold c_of. replace (i <? k) with true by (symmetry; apply Nat.ltb_lt; lia). now apply Hfin.
+  - cbn [for_from] in Hdec, Hfwd.
+    apply bind_ok in Hdec as ([[[[au1 al1] index1] d1] l1] & E1 & Hdec).
+    apply bind_ok in Hfwd as ([y1 l1'] & F1 & Hfwd).
+    assert (Hln : lnext n (Nat.min (k + m1) n) <= k + 1 + m1) by (rewrite lnext_min by auto; lia).
+    pose proof (dec_step_frame n mm m1 k _ _ _ _ _ _ _ _ _ _ Hc Hcl Hmm Hln E1) as (Hc1 & Hcl1 & Hl1 & _).
+    rewrite lnext_min in Hl1 by auto. subst l1.
+    (* the later stages leave row k, its multipliers and its exchange index alone *)
+    pose proof (dec_loop_frame n mm m1 rem (S k) (au1, al1, index1, d1, Nat.min (k + 1 + m1) n)
+                  (auN, alN, indexN, dN, lN)) as HF.
+    cbn beta iota in HF. cbn [fst snd] in HF.
+    specialize (HF Hc1 Hcl1 Hmm).
+    replace (S k + m1) with (k + 1 + m1) in HF by lia. specialize (HF eq_refl Hm1 Hdec).
+    destruct HF as (HcN & HclN & _ & HauN & HalN & HixN).
+    assert (Hpk : mat_at au1 mm k 0 <> zero).
+    { rewrite <- HauN by lia. apply Hpiv. lia. }
+    destruct (dec_step_Ok_inv n mm m1 k _ _ _ _ _ _ _ _ _ _ Hc Hcl Hmm Hln E1 Hpk)
+      as (p & Hp & _ & _ & _ & Hki & Hix1 & Ha2 & Hau1 & Hal1).
+    cbn zeta in Ha2, Hau1, Hal1.
+    assert (HixNk : nth k indexN 0 = p + 1).
+    { rewrite HixN by lia. rewrite Hix1, nth_upd_list by auto. now rewrite Nat.eqb_refl. }
+    destruct (fwd_step_Ok_inv n m1 k alN indexN y y1 _ l1' p HclN HixNk Hln F1) as (Hl1' & _ & Hy1).
+    rewrite lnext_min in Hl1' by auto. subst l1'.
+    (* induction hypothesis for the stages after k *)
+    assert (Hnext : forall i, i < n -> rowval au1 mm i (c_of m1 (k + 1) i) x = nth i y1 zero).
+    { replace (k + 1) with (S k) by lia.
+      apply (IH (S k) au1 al1 index1 d1 auN alN indexN dN lN y1 yN lN'); auto; try lia.
+      - now replace (S k + m1) with (k + 1 + m1) by lia.
+      - intros i Hi. apply Hpiv. lia.
+      - now replace (S k + m1) with (k + 1 + m1) by lia. }
+    apply (stage_back n mm m1 k p (Nat.min (k + 1 + m1) n) au au1 y y1 x); auto; try lia.
+    intros i. rewrite Hy1.
+    destruct ((k <? i) && (i <? Nat.min (k + 1 + m1) n)) eqn:Hin; auto.
+    apply andb_true_iff in Hin as (Hki' & Hil). apply Nat.ltb_lt in Hki', Hil.
+    rewrite HalN by lia. rewrite Hal1 by lia. rewrite Nat.eqb_refl. cbn [andb].
+    replace (k + 1 + (i - k - 1)) with i by lia.
+    replace (i <? Nat.min (k + 1 + m1) n) with true by (symmetry; apply Nat.ltb_lt; lia). reflexivity.
+Qed.
+
+(* ---- the forward loop keeps the length of the right-hand side ---- *)
+Lemma fwd_step_length n (al : matrix) (index : list nat) k (y y' : list T) l l' :
+  fwd_step n al index k (y, l) = Ok (y', l') -> length y' = length y.
+Proof.
+  intros H. unfold fwd_step in H.
+  apply bind_ok in H as (ik & _ & H). apply bind_ok in H as (j & _ & H).
+  apply bind_ok in H as (z & Ez & H). apply bind_ok in H as (y1 & Eloop & H). injection H as <- <-.
+  assert (Hz : length z = length y).
+  { destruct (negb (j =? k)); [|now injection Ez as <-]. unfold vswap in Ez.
+    apply bind_ok in Ez as (a & _ & Ez). apply bind_ok in Ez as (b & _ & Ez).
+    apply bind_ok in Ez as (v1 & E1 & Ez). apply upd_Ok_inv in E1 as (_ & ->).
+    apply upd_Ok_inv in Ez as (_ & ->). now rewrite !upd_list_length. }
+  rewrite <- Hz. set (l1 := if l <? n then l + 1 else l) in *.
+  destruct (Nat.le_gt_cases (k + 1) l1) as [Hkl|Hkl].
+  2:{ rewrite for_empty in Eloop by lia. now injection Eloop as <-. }
+  refine (for_inv_partial (fun _ (x : list T) => length x = length z) (k + 1) l1 _ z y1 Hkl eq_refl _ Eloop).
+  intros j' x x1 _ Hx E.
+  apply bind_ok in E as (xk & _ & E). apply bind_ok in E as (a & _ & E). apply bind_ok in E as (xj & _ & E).
+  apply upd_Ok_inv in E as (_ & ->). now rewrite upd_list_length.
+Qed.
+
+Lemma fwd_loop_length n (al : matrix) (index : list nat) rem k (s s' : list T * nat) :
+  for_from rem k (fwd_step n al index) s = Ok s' -> length (fst s') = length (fst s).
+Proof.
+  intros H.
+  refine (for_from_inv_partial (fun _ (st : list T * nat) => length (fst st) = length (fst s)) rem k _ s s' eq_refl _ H).
+  intros i [y l] [y1 l1] _ Hy E. cbn [fst] in *. apply fwd_step_length in E. congruence.
+Qed.
+
+(* ---- the first loop of decompose: rows 0 .. m1-1 shifted left, lower-left padding dropped, zeros appended ---- *)
+Definition shifted (au : matrix) (mm m1 r s : nat) : T :=
+  if r <? m1 then (if s <? mm - (m1 - r) then mat_at au mm r (s + (m1 - r)) else zero) else mat_at au mm r s.
+
+Lemma shift_rows_Ok_inv (au au0 : matrix) mm m1 :
+  cols au = mm -> m1 < mm -> shift_rows m1 mm au = Ok au0 ->
+  cols au0 = mm /\ forall r s, s < mm -> mat_at au0 mm r s = shifted au mm m1 r s.
+Proof.
+  intros Hc Hm H. unfold shift_rows in H. apply bind_ok in H as ([a l] & Eloop & H). injection H as <-.
+  cbn [fst].
+  pose (P := fun i (st : matrix * nat) =>
+     snd st = m1 - i /\ cols (fst st) = mm /\
+     forall r s, s < mm -> mat_at (fst st) mm r s = if r <? i then shifted au mm m1 r s else mat_at au mm r s).
+  assert (HP : P m1 (a, l)).
+  { refine (for_inv_partial P 0 m1 _ (au, m1) (a, l) (Nat.le_0_l _) _ _ Eloop).
+    - unfold P; cbn [fst snd]. repeat split; auto. lia.
+    - intros i [a0 l0] [a2 l2] Hi (Hl0 & Hc0 & Ha0) E. cbn [fst snd] in *. subst l0.
+      apply bind_ok in E as (a1 & Ecopy & E). apply bind_ok in E as (a2' & Ezero & E). injection E as <- <-.
+      (* copy loop *)
+      assert (H1 : cols a1 = mm /\ forall r s, s < mm -> mat_at a1 mm r s =
+                 if (r =? i) && (s <? mm - (m1 - i)) then mat_at a0 mm i (s + (m1 - i)) else mat_at a0 mm r s).
+      { assert (Hle : m1 - i <= mm) by lia.
+        refine (for_inv_partial (fun j (m : matrix) => cols m = mm /\ forall r s, s < mm -> mat_at m mm r s =
+                   if (r =? i) && (s <? j - (m1 - i)) then mat_at a0 mm i (s + (m1 - i)) else mat_at a0 mm r s)
+                  (m1 - i) mm _ a0 a1 Hle _ _ Ecopy).
+        - split; auto. intros r s Hs. rewrite Nat.sub_diag. cbn. now rewrite andb_false_r.
+        - intros j m m' Hj (Hcm & Hm') E.
+          apply bind_ok in E as (v & Ev & E). apply (mget_Ok_inv _ mm) in Ev as (-> & _); auto.
+          apply (mset_Ok_inv _ _ mm) in E as (Hcm' & _ & Hm''); auto; [|lia].
+          split; auto. intros r s Hs. rewrite Hm'' by auto. rewrite !Hm' by lia.
+          replace (j <? j - (m1 - i)) with false by (symmetry; apply Nat.ltb_ge; lia). rewrite andb_false_r.
+          destruct (Nat.eqb_spec r i) as [->|]; cbn [andb]; auto.
+          destruct (Nat.eqb_spec s (j - (m1 - i))) as [->|].
+          + replace (j - (m1 - i) <? S j - (m1 - i)) with true by (symmetry; apply Nat.ltb_lt; lia).
+            now replace (j - (m1 - i) + (m1 - i)) with j by lia.
+          + destruct (Nat.ltb_spec s (j - (m1 - i))); destruct (Nat.ltb_spec s (S j - (m1 - i))); auto; lia. }
+      destruct H1 as (Hc1 & H1).
+      (* zero fill *)
+      assert (H2 : cols a2' = mm /\ forall r s, s < mm -> mat_at a2' mm r s =
+                 if (r =? i) && (mm - (m1 - i) <=? s) then zero else mat_at a1 mm r s).
+      { assert (Hle : mm - (m1 - i - 1) - 1 <= mm) by lia.
+        assert (Hst : mm - (m1 - i - 1) - 1 = mm - (m1 - i)) by lia.
+        assert (HZ : cols a2' = mm /\ forall r s, s < mm -> mat_at a2' mm r s =
+                   if (r =? i) && (mm - (m1 - i) <=? s) && (s <? mm) then zero else mat_at a1 mm r s).
+        { refine (for_inv_partial (fun j (m : matrix) => cols m = mm /\ forall r s, s < mm -> mat_at m mm r s =
+                   if (r =? i) && (mm - (m1 - i) <=? s) && (s <? j) then zero else mat_at a1 mm r s)
+                  (mm - (m1 - i - 1) - 1) mm _ a1 a2' Hle _ _ Ezero).
+          - split; auto. intros r s Hs. rewrite Hst.
+            destruct (Nat.eqb_spec r i); cbn [andb]; auto.
+            destruct (Nat.leb_spec (mm - (m1 - i)) s); destruct (Nat.ltb_spec s (mm - (m1 - i))); cbn [andb]; auto; lia.
+          - intros j m m' Hj (Hcm & Hm') E.
+            apply (mset_Ok_inv _ _ mm) in E as (Hcm' & _ & Hm''); auto; [|lia].
+            split; auto. intros r s Hs. rewrite Hm'' by auto. rewrite Hm' by auto.
+            destruct (Nat.eqb_spec r i) as [->|]; cbn [andb]; auto.
+            destruct (Nat.eqb_spec s j) as [->|].
+            + replace (mm - (m1 - i) <=? j) with true by (symmetry; apply Nat.leb_le; lia).
+              replace (j <? S j) with true by (symmetry; apply Nat.ltb_lt; lia). reflexivity.
+            + destruct (Nat.leb_spec (mm - (m1 - i)) s); cbn [andb]; auto.
+              destruct (Nat.ltb_spec s j); destruct (Nat.ltb_spec s (S j)); auto; lia. }
+        destruct HZ as (Hcz & Hz).
+        split; auto. intros r s Hs. rewrite Hz by auto.
+        replace (s <? mm) with true by (symmetry; apply Nat.ltb_lt; auto). now rewrite andb_true_r. }
+      destruct H2 as (Hc2 & H2).
+      unfold P; cbn [fst snd]. split; [lia|]. split; [auto|].
+      intros r s Hs. rewrite H2, H1 by auto.
+      destruct (Nat.eqb_spec r i) as [->|Hne]; cbn [andb].
+      + replace (i <? S i) with true by (symmetry; apply Nat.ltb_lt; lia).
+        unfold shifted. replace (i <? m1) with true by (symmetry; apply Nat.ltb_lt; lia).
+        destruct (Nat.leb_spec (mm - (m1 - i)) s); destruct (Nat.ltb_spec s (mm - (m1 - i))); try lia; auto.
+        rewrite Ha0 by lia. now rewrite Nat.ltb_irrefl.
+      + rewrite Ha0 by auto.
+        destruct (Nat.ltb_spec r i); destruct (Nat.ltb_spec r (S i)); auto; lia. }
+  destruct HP as (_ & Hca & Ha). split; auto. intros r s Hs. rewrite Ha by auto.
+  unfold shifted. destruct (Nat.ltb_spec r m1); auto.
 Qed.
 
 End LU.
